@@ -144,7 +144,16 @@ def run(ctx: Ctx) -> None:
     else:
         ctx.fail("height.formula", hm, hf, "height_func_list reads leftmost indices from a tableau that was not passed through rref: the "
                                            "result would depend on the generating set", func="height_func_list", construct="height_func_list: no rref")
-    ha = [n for n in ast.walk(hf) if isinstance(n, ast.Assign) and norm(n.targets[0]) == "height"]
+    # the value appended to the returned list (whatever the local is called)
+    rname = next((r.value.id for r in ast.walk(hf) if isinstance(r, ast.Return) and isinstance(r.value, ast.Name)), None)
+    app = [c for c in calls_in(hf) if call_attr(c) == "append" and isinstance(c.func.value, ast.Name) and c.func.value.id == rname and c.args]
+    if rname is None or len(app) != 1:
+        raise AnalysisError("height_func_list: `<list>.append(<height>)` / `return <list>` not found")
+    hv = app[0].args[0]
+    if isinstance(hv, ast.Name):
+        ha = [n for n in ast.walk(hf) if isinstance(n, ast.Assign) and norm(n.targets[0]) == hv.id]
+    else:
+        ha = [ast.Assign(targets=[ast.Name(id="<appended>", ctx=ast.Store())], value=hv, lineno=app[0].lineno, col_offset=0)]
     cnt_a = [n for n in ast.walk(hf) if isinstance(n, ast.Assign) and isinstance(n.value, ast.Call) and call_attr(n.value) == "len"
              and isinstance(n.value.args[0], ast.ListComp)]
     good = False
